@@ -6,11 +6,12 @@ import concurrent.futures as cf
 import json
 import os
 import shutil
+import subprocess
 from typing import Any, Dict, List, Optional, Tuple
 
 from lib import gen
 from lib.ordertaint import Analyzer
-from lib.report import Run
+from lib.report import Run, VERIF
 
 REPO = gen.REPO
 
@@ -120,6 +121,15 @@ def main(argv: List[str]) -> int:
     os.makedirs(os.path.dirname(ext_path), exist_ok=True)
     json.dump(EXT_MODEL, open(ext_path, "w"))
     base_model = os.path.join(REPO, "generator", "lsp.json")
+    # an evolved model that changes existing declarations (bases / mixins, same-named structures, literals, enumerations)
+    from oracle import evolve as ev
+
+    other = ev.evolve(json.load(open(base_model, "rb")), ["base-properties", "remove-optional", "redeclared-property", "extends-mixins", "literal-property", "literal-union-member", "enumerations", "nested-containers"], 11)
+    for s_ in other["structures"]:
+        if s_["name"] in ("WorkDoneProgressParams", "Location", "TextDocumentIdentifier", "Range"):
+            s_["properties"].append({"name": "verifNote", "type": {"kind": "base", "name": "string"}, "optional": True})
+    other_model = os.path.join(tmp, "ext", "other.json")
+    json.dump(other, open(other_model, "w"))
     jobs = []
     for pl in plugins:
         for models, mname in ((None, "default"), ([base_model, ext_path], "two-files")):
@@ -130,12 +140,30 @@ def main(argv: List[str]) -> int:
         jobs.append((pl, "default", None, "0", "rerun"))
         jobs.append((pl, "default", None, "0", "after-other-model"))
         jobs.append((pl, "default", None, "0", "stale-files"))
+        jobs.append((pl, "default", None, "0", "in-process-after-other-model"))
+
+    # the testdata plugin on the first 10 requests / notifications only (whole-model runs are in the thorough tier)
+    jobs.append(("testdata", "sliced", None, "0", "sliced-fresh"))
+    jobs.append(("testdata", "sliced", None, "0", "in-process-after-other-model"))
 
     def one(job):
         pl, mname, models, sd, hist = job
         out = os.path.join(tmp, f"{pl}-{mname}-{sd}-{hist}")
         os.makedirs(out, exist_ok=True)
         logs = []
+        if hist in ("in-process-after-other-model", "sliced-fresh"):
+            # one interpreter generates an evolved model and then the committed one: the second output must be the fresh-process one
+            env = dict(os.environ, VERIF_REPO=REPO, PYTHONPATH=REPO, PYTHONHASHSEED=sd, PYTHONDONTWRITEBYTECODE="1")
+            if mname == "sliced":
+                env["VERIF_SLICE"] = "10"
+            out_a = out + "-A"
+            p = subprocess.run([gen.PY, os.path.join(VERIF, "tools", "c16_inproc.py"), pl, "-" if hist == "sliced-fresh" else other_model, out_a, base_model, out], cwd=REPO, env=env, capture_output=True, text=True, timeout=900)
+            shutil.rmtree(out_a, ignore_errors=True)
+            dig = gen.tree_digest(out)
+            owned_pat = {"python": lambda p_: p_.endswith("types.py"), "rust": lambda p_: p_.endswith("lib.rs"), "dotnet": lambda p_: p_.endswith(".cs"), "testdata": lambda p_: p_.endswith(".json")}[pl]
+            dig = {k: v for k, v in dig.items() if owned_pat(k)}
+            shutil.rmtree(out, ignore_errors=True)
+            return job, p.returncode, dig, (p.stdout + p.stderr)[-600:]
         if hist == "rerun":
             rc, log, _ = gen.run_plugin(pl, out, models=models, hashseed="5")
             logs.append(rc)
@@ -170,7 +198,7 @@ def main(argv: List[str]) -> int:
         shutil.rmtree(tmp, ignore_errors=True)
     ref: Dict[Tuple[str, str], Dict[str, str]] = {}
     for (pl, mname, models, sd, hist), rc, dig, log in results:
-        if hist == "fresh" and sd == seeds[0]:
+        if (hist == "fresh" and sd == seeds[0]) or hist == "sliced-fresh":
             ref[(pl, mname)] = dig
     dyn = 0
     dyn_findings: List[str] = []
@@ -194,7 +222,7 @@ def main(argv: List[str]) -> int:
         )
     run.assume(
         "the qualifier system is conservative: set displays/calls, set algebra on dict views, glob/listdir results are Unordered; id_/uuid values are Opaque; sorted/len/min/max/any/all/membership are order-insensitive consumers; per-element file operations on element-derived targets are order-insensitive; dict iteration is insertion-ordered",
-        "hash seeds and histories are explored only on the stated finite set (bounded): 3 (quick) / 6 (thorough) seeds x {fresh, re-run, after a different model, planted stale files} x {committed model, committed model + extension file}",
+        "hash seeds and histories are explored only on the stated finite set (bounded): 3 (quick) / 6 (thorough) seeds x {fresh, re-run, after a different model, planted stale files, in the same interpreter after an evolved model} x {committed model, committed model + extension file}",
         "the FS frame is a structural obligation on generate_from_spec/cleanup (cleanup before writes, unconditional, glob covers the owned extension, writes independent of prior directory contents)",
     )
     static_ob = nq + nf
